@@ -146,6 +146,17 @@ func genInvalid(g *Rng, w *World, cfg map[string]any) []InvalidCase {
 			return append(l, map[string]any{"src": "@SRC@src/dup", "dst": "/usr/share/dup/"})
 		})
 	})
+	// an owner name that the GNU tar format (deb, ipk) cannot hold, on a
+	// directory that is followed by its own content: the unencodable entry is
+	// not the last one written
+	longOwner := strings.Repeat("o", 43)
+	mk("content.owner.too-long-for-gnu-tar", []string{"deb", "ipk"}, func(m map[string]any) {
+		eachList(m, func(l []any) []any {
+			return append(l,
+				map[string]any{"dst": "/opt/zzlong", "type": "dir", "file_info": map[string]any{"owner": longOwner, "mode": 0o750}},
+				map[string]any{"src": "@SRC@src/bin/app", "dst": "/opt/zzlong/app"})
+		})
+	})
 	// dpkg-sig clear-signs with the primary key; a subkeys-only export (the
 	// primary secret key is a stub) cannot do that: signing must fail loudly
 	haveD := false
